@@ -27,12 +27,16 @@ type cfgVariant struct {
 	DNSSEC   bool   `json:"dnssec"` // on: RFC 8020 cut index live; off: shared denial disabled
 	ECS      bool   `json:"ecs"`
 	Prefetch int    `json:"prefetch,omitempty"`
+	// OpenECS: [ecs] client_networks empty — every client (the internal
+	// sub-pipeline's writer included) is eligible for ECS forwarding.
+	OpenECS bool `json:"open_ecs,omitempty"`
 }
 
 var (
 	variantMain  = cfgVariant{Name: "dnssec-on+ecs-on", DNSSEC: true, ECS: true}
 	variantPlain = cfgVariant{Name: "dnssec-off+ecs-off"}
 	variantAud   = cfgVariant{Name: "dnssec-on+ecs-on+prefetch", DNSSEC: true, ECS: true, Prefetch: 50}
+	variantOpen  = cfgVariant{Name: "dnssec-on+ecs-open+prefetch", DNSSEC: true, ECS: true, Prefetch: 50, OpenECS: true}
 )
 
 const (
@@ -128,7 +132,9 @@ func newEnv(r *vlib.Run, v cfgVariant) *env {
 		cfg.ECS.Enabled = true
 		cfg.ECS.ForwardV4Max = ecsV4Max
 		cfg.ECS.ForwardV6Max = ecsV6Max
-		cfg.ECS.ClientNetworks = ecsClientNetworks
+		if !v.OpenECS {
+			cfg.ECS.ClientNetworks = ecsClientNetworks
+		}
 	}
 	u := newUniverse()
 	st, err := stack.New(stack.Options{Config: cfg, Stub: u.stub})
@@ -141,8 +147,10 @@ func newEnv(r *vlib.Run, v cfgVariant) *env {
 		r.Fatalf("no cache handler in the stack")
 	}
 	e.store = e.c.VerifStore()
-	for _, s := range ecsClientNetworks {
-		e.nets = append(e.nets, netip.MustParsePrefix(s))
+	if !v.OpenECS {
+		for _, s := range ecsClientNetworks {
+			e.nets = append(e.nets, netip.MustParsePrefix(s))
+		}
 	}
 	return e
 }
@@ -161,7 +169,7 @@ func (e *env) clientScope(a ask) netip.Prefix {
 	if err != nil {
 		return netip.Prefix{}
 	}
-	allowed := false
+	allowed := len(e.nets) == 0
 	for _, n := range e.nets {
 		if n.Contains(ap.Addr().Unmap()) {
 			allowed = true
@@ -392,6 +400,9 @@ func diff(stored, hop pre, client netip.Prefix) []string {
 	return d
 }
 
+// sigPrefetchScoped: see FINDINGS.md #1.
+const sigPrefetchScoped = "scope/prefetch-refresh-files-scoped-answer-in-shared-slot"
+
 type verdict struct {
 	Kind    string   // hit | fresh | cached-failure | stub-failure | cut | miss | none
 	Markers []uint32 // ids seen in the reply, in order
@@ -442,6 +453,11 @@ func (e *env) judge(kind string, c any, route string, a ask, o *obs, suspect *pr
 	r.Eval(1)
 	r.Count("replies_judged/"+route, 1)
 	client := e.clientScope(a)
+	if route == rStoreGet || route == rStoreLookup {
+		// the resolver-internal route carries no audience: whatever it hands
+		// out must be good for everyone
+		client = netip.Prefix{}
+	}
 	hop := a.pre()
 
 	report := func(dims []string, stored pre, what string) {
@@ -524,6 +540,17 @@ func (e *env) judge(kind string, c any, route string, a ask, o *obs, suspect *pr
 			}
 			ids = append(ids, id)
 			if dims := diff(mk.Pre, hop, client); len(dims) > 0 {
+				if mk.Internal && mk.Kind == "answer" && len(dims) == 1 && dims[0] == "scope" {
+					// A scoped answer the authority gave to an INTERNAL refresh
+					// query: the only internal query that carries ECS is the
+					// prefetch of a shared entry triggered by an ECS client.
+					// Route-independent signature (FINDINGS.md #1).
+					r.Violation(sigPrefetchScoped,
+						fmt.Sprintf("%s answered %v (client audience %v) with an answer the authority scoped to %s; it was obtained by an internal prefetch refresh that forwarded the triggering client's ECS and was filed in the shared slot", route, hop, client, mk.Pre.Scope),
+						e.vcase(kind, c, route, a, o, &mk.Pre))
+					r.Count("finding1_hits", 1)
+					continue
+				}
 				report(dims, mk.Pre, fmt.Sprintf("%s answered the question %v (client audience %v) with a record admitted for %v", route, hop, client, mk.Pre))
 			}
 			if cn, ok := rr.(*dns.CNAME); ok {
